@@ -157,6 +157,11 @@ pub fn c08(tier: &str) -> i32 {
     let mut c = ecfg("MarketEnv<4,3>: four assets", true, &[1, 2, 3, 5], 100, 3, 2, 0, &cl);
     c.alpha.modify = false;
     absorb_env(&mut out, &c, 4, 3, run_env::<4, 3>(&c), "market-env", true);
+    // unbounded number of steps: closure over abstract book states through the real environment
+    crate::envabs::run_env_closure(
+        &mut out,
+        &crate::envabs::EnvClosureCfg { label: "Env<3>: every batch of <= 2 instructions x every schedule from every book state", multi: false, asset: 0, step_size: 10, start_trading: true, max_rest: 2, max_vol: 2, max_batch: 2, toggles: true, prices: 2, thin_pairs: !t },
+    );
     let sizes: &[usize] = if t { &[6, 12, 20, 33, 34, 48, 64, 100, 257, 1025, 4097] } else { &[6, 20, 33, 40, 64, 257, 1030] };
     large_batches::<1, 3>(&mut out, false, sizes, "env");
     large_batches::<2, 3>(&mut out, true, sizes, "market-env");
@@ -206,6 +211,12 @@ pub fn c10(tier: &str) -> i32 {
     absorb_env(&mut out, &c, 1, 3, run_env::<1, 3>(&c), "env", false);
     let c = magnitude_cfg("MarketEnv<2,3>: volumes of 1e9..3e9", true, &[1, 2], s - 1, 2, &cl);
     absorb_env(&mut out, &c, 2, 3, run_env::<2, 3>(&c), "market-env", false);
+    // unbounded number of steps: three prices and unit volumes, so that a step can rearrange the
+    // depth behind an unchanged touch; constructed with trading off, toggles between steps
+    crate::envabs::run_env_closure(
+        &mut out,
+        &crate::envabs::EnvClosureCfg { label: "Env<3>: three prices, trading off at construction, toggles", multi: false, asset: 0, step_size: 100, start_trading: false, max_rest: 2, max_vol: if t { 2 } else { 1 }, max_batch: 2, toggles: true, prices: 3, thin_pairs: !t },
+    );
     out.finish()
 }
 
@@ -283,6 +294,11 @@ pub fn c11(tier: &str) -> i32 {
     absorb_env(&mut out, &c, 1, 10, run_env::<1, 10>(&c), "env", false);
     let c = magnitude_cfg("Env<3>: volumes of 1e9..3e9, clock beyond 2^40, step size 2^33", false, &[1], s - 1, 3, &cl);
     absorb_env(&mut out, &c, 1, 3, run_env::<1, 3>(&c), "env", false);
+    // unbounded number of steps on one asset of a two-asset environment
+    crate::envabs::run_env_closure(
+        &mut out,
+        &crate::envabs::EnvClosureCfg { label: "MarketEnv<2,3>: asset 1 explored, asset 0 static; every batch x schedule from every book state", multi: true, asset: 1, step_size: 50, start_trading: true, max_rest: 2, max_vol: 2, max_batch: 2, toggles: true, prices: 2, thin_pairs: !t },
+    );
     out.assumptions = vec!["live values are read through get_orderbook()/get_market() right after each step".into()];
     out.finish()
 }
@@ -322,6 +338,11 @@ pub fn c14(tier: &str) -> i32 {
     large_batches::<2, 3>(&mut out, true, sizes, "market-env");
     large_batches::<3, 2>(&mut out, true, sizes, "market-env");
     large_batches::<4, 3>(&mut out, true, sizes, "market-env");
+    // unbounded number of steps on asset 0 while asset 1 must not move
+    crate::envabs::run_env_closure(
+        &mut out,
+        &crate::envabs::EnvClosureCfg { label: "MarketEnv<2,3>: asset 0 explored, asset 1 must not move; every batch x schedule from every book state", multi: true, asset: 0, step_size: 20, start_trading: true, max_rest: 2, max_vol: 2, max_batch: 2, toggles: true, prices: 2, thin_pairs: !t },
+    );
     out.assumptions = vec!["shadow = stand-alone real OrderBooks fed only their asset's operations at the same times".into()];
     out.finish()
 }
@@ -337,6 +358,12 @@ pub fn c05_env_part(out: &mut Outcome, t: bool) {
     }
     let c = ecfg("MarketEnv<2,3>: step size 1 < batch", true, &[1, 2], 1, s - 1, 2, 0, &cl);
     absorb_env(out, &c, 2, 3, run_env::<2, 3>(&c), "market-env", true);
+    // unbounded number of steps with step size 1 and batches of two: the second instruction of
+    // every step carries the stamp the next step starts with
+    crate::envabs::run_env_closure(
+        out,
+        &crate::envabs::EnvClosureCfg { label: "Env<3>: step size 1 < batch of 2, every schedule, from every book state", multi: false, asset: 0, step_size: 1, start_trading: true, max_rest: if t { 3 } else { 2 }, max_vol: 2, max_batch: 2, toggles: true, prices: 2, thin_pairs: true },
+    );
 }
 
 pub fn c12_env_part(out: &mut Outcome, t: bool) {
